@@ -3,7 +3,7 @@ package main
 func init() {
 	register(prop{
 		ID: "C05", Pkg: "c05",
-		Rule:        "rapid draws <=30 steps over client call / server call / nested call (handler calls the peer) / notifications / release(i) / Close(side) / Wait(side) / write failures of one side / peer vanishing / late requests from the peer / sleep, optional server keep-alive; real ends over an in-memory byte pipe; handlers park on gates and record context cancellation; every Close/Wait/call the script starts must return after the wind-down (all gates released, both sides closed, 30s of virtual time), the server must list no session and the bubble must end with no goroutine left. seq waits for quiescence after each step, race lets the scheduler interleave steps (-race in the thorough tier). Non-trivial = Close issued while >=1 handler is parked or >=1 call is pending; distinct by step-kind string.",
+		Rule:        "TestC05_Links: a real Client and Server over every link kind (in-memory, io pipe, legacy SSE, stateful streamable in 7 option combinations, stateless streamable), 3 protocol versions, parked subscriptions/listen; 2-25 steps of client calls (whose handlers may first call the client), server calls outside handlers, notifications, release, sleeps up to 40 s, Close from either side (single or two concurrent), at most one link cut (pipe end closed, raw connection closed, HTTP exchanges failing with open bodies cut or left silent); judged: every Close/Wait/call returns, a local Close does not cancel running handlers, no dispatch after Close returned, sessions gone from the Server, no SDK goroutine left (bubble exit plus a stack scan for client transport goroutines after Close). TestC05_Seq/Race: rapid draws <=30 steps over client call / server call / nested call (handler calls the peer) / notifications / release(i) / Close(side) / Wait(side) / write failures of one side / peer vanishing / late requests from the peer / sleep, optional server keep-alive, transports that start refusing one side's notifications with a per-message rejection; real ends over an in-memory byte pipe; handlers park on gates and record context cancellation; every Close/Wait/call the script starts must return after the wind-down (all gates released, both sides closed, 30s of virtual time), the server must list no session and the bubble must end with no goroutine left. seq waits for quiescence after each step, race lets the scheduler interleave steps (-race in the thorough tier). Non-trivial = Close issued while >=1 handler is parked or >=1 call is pending; distinct by step-kind string.",
 		Assumptions: []string{"handlers return when released or when their context is cancelled (the property's proviso)", "clause (b) (running handlers not cancelled by a local Close, transport closed after them) is asserted only while no fault has been injected", "client-side session bookkeeping (Client.sessions) is not observable through the public API and is not checked"},
 		LevelText:   "Generated shutdown schedules with traffic in both directions and injected faults; liveness of every Close/Wait and absence of leftovers are decided by the synctest bubble (deadlock / blocked goroutines at exit are reported).",
 		LevelNote:   "Trusts handler-side recording and synctest; deadlocks through plain mutexes show as the wall-clock watchdog (inconclusive), not as violations.",
@@ -12,6 +12,7 @@ func init() {
 		Runs: []run{
 			{Test: "TestC05_Seq", Quick: 1500, Thorough: 30000},
 			{Test: "TestC05_Race", Quick: 500, Thorough: 12000, Race: true},
+			{Test: "TestC05_Links", Quick: 1500, Thorough: 30000},
 		},
 	})
 }
